@@ -198,8 +198,21 @@ def main():
         # core's skip_search loop for Alphabetic needs > 330 unwindings (a 20 minute CBMC run with unwind 330 did
         # not verify); these two tables are outside the solver's reach and only scanned natively (auxiliary)
         beyond = {'alphabetic', 'alphanumeric'}
+        # ... they are decided by engine M instead (lib/c13u.py: core's skip_search copied from rust-src, explored path by
+        # path with z3), started here as a separate process so that it runs beside the Kani jobs
+        up = subprocess.Popen([sys.executable, os.path.join(os.path.dirname(os.path.abspath(__file__)), 'c13u.py')], stdout=subprocess.PIPE, stderr=subprocess.PIPE, text=True, env=dict(os.environ))
         harnesses = ['t_' + n.lower() for n, _, _ in NAMES if n not in beyond] + ['unicode_version']
         res = run_kani(d, harnesses, 7, 900 if thorough else 420)
+        try:
+            uo, ue = up.communicate(timeout=1500)
+        except subprocess.TimeoutExpired:
+            up.kill()
+            uo, ue = '', 'timeout'
+        ures = {'uv': None, 'tables': {}, 'error': (ue or '')[-300:]}
+        for l in uo.split('\n'):
+            if l.startswith('C13U '):
+                ures = json.loads(l[5:])
+        m_decided = []
         solver_s = 0.0
         ok = 0
         samples = []
@@ -207,7 +220,24 @@ def main():
             h = 't_' + n.lower()
             nat = tables.get(n)
             if n in beyond:
-                samples.append({'builtin': n, 'table': t, 'kani': 'not attempted (beyond reach)', 'native_scan_mismatches': nat['mismatches'] if nat else None})
+                ur = ures['tables'].get(n) or {'status': 'inconclusive', 'detail': ures.get('error') or 'no result'}
+                if ures.get('uv') is not None and uv is not None and tuple(ures['uv']) != tuple(uv):
+                    ur = {'status': 'inconclusive', 'detail': 'rust-src of the nightly toolchain has Unicode %s, the repository toolchain %s' % (ures['uv'], list(uv))}
+                samples.append({'builtin': n, 'table': t, 'predicate': p, 'kani': 'not attempted (beyond reach)', 'engine_m': ur.get('status'), 'paths': ur.get('paths'), 'queries': ur.get('queries'),
+                                'seconds': ur.get('seconds'), 'detail': ur.get('detail'), 'native_scan_mismatches': nat['mismatches'] if nat else None})
+                if ur.get('status') == 'ok':
+                    m_decided.append(n)
+                    solver_s += ur.get('seconds') or 0
+                    if nat and (nat['mismatches'] or not nat['wellformed']):
+                        rep.inconc('%s: engine M finds table and predicate equal but the native scan disagrees (%r)' % (n, nat))
+                    continue
+                if ur.get('status') == 'fail':
+                    if nat and nat['mismatches']:
+                        rep.violation('table %s' % n, '$$%s: table %s differs from the Rust predicate at %d code points, first U+%04X (solver counterexample U+%04X, confirmed by the native exhaustive scan)' % (n, t, nat['mismatches'], nat['first'], ur['cex']),
+                                      {'property': 'C13', 'builtin': n, 'table': t, 'solver_counterexample': ur['cex'], 'first_mismatching_code_point': nat['first'], 'mismatching_code_points': nat['mismatches']})
+                    else:
+                        rep.inconc('%s: engine M reports U+%04X but the native exhaustive scan finds no difference' % (n, ur['cex']))
+                    continue
                 if nat and nat['mismatches']:
                     rep.violation('table %s' % n, '$$%s: table %s differs from the Rust predicate at %d code points, first U+%04X (native exhaustive scan; not solver-decided)' % (n, t, nat['mismatches'], nat['first']),
                                   {'property': 'C13', 'builtin': n, 'first_mismatching_code_point': nat['first'], 'mismatching_code_points': nat['mismatches']})
@@ -236,8 +266,10 @@ def main():
         if st != 'ok':
             rep.inconc("Kani's core library and the repository toolchain have different Unicode versions (%s vs %s): table contents cannot be decided with this Kani" % (detail, uv))
         cov13 = {
-            'evaluations': len(NAMES) - len(beyond), 'distinct_nontrivial': ok,
-            'not_decided_by_solver': sorted(beyond),
+            'evaluations': len(NAMES) - len(beyond) + len(m_decided), 'distinct_nontrivial': ok + len(m_decided),
+            'not_decided_by_solver': sorted(beyond - set(m_decided)),
+            'decided_by_engine_M': {'tables': m_decided, 'how': 'core::unicode skip_search + char::is_alphabetic/is_alphanumeric copied verbatim at run time from the rust-src of the installed nightly '
+                                    '(same Unicode version as the repository toolchain: checked), explored path by path for one symbolic char; per path z3 decides table membership != result'},
             'rule': 'one case = one built-in name: Kani/CBMC harness `member(TABLE, c) == predicate(c)` with c an arbitrary char (all 1,112,064 scalar values decided by the SAT solver); '
                     'non-trivial = verified with both cover witnesses (some character inside, some outside) reached',
             'samples': samples, 'states': len(NAMES), 'transitions': len(harnesses), 'traces_validated_against_impl': len(tables),
